@@ -54,9 +54,39 @@ Example C14_example_names :
   /\ gen_auto_add_extension "x" Ezarr = "x.zarr".
 Proof. vm_compute. repeat split; reflexivity. Qed.
 
+(* float data (for instance an integer variable that merging padded with missing cells) is never written with an
+   integer dtype remembered from an earlier load -- by the rule regenerated from save_ds -- so missing cells stay
+   missing; packed variables (scale_factor / add_offset) keep their on-disk dtype *)
+Theorem C14_float_not_written_as_integer : forall e remembered,
+  e <> Ezarr ->
+  written_kind gen_dtype_rule e remembered KFloat false <> KInt
+  /\ written_kind gen_dtype_rule e remembered KFloat false <> KUInt.
+Proof.
+  intros e remembered He. rewrite bridge_dtype_rule.
+  destruct e; try congruence; destruct remembered as [[]|]; cbn; split; discriminate.
+Qed.
+
+(* ... and nothing else is touched: a remembered dtype of the data's own kind, or of a packed variable, is kept *)
+Theorem C14_other_dtypes_kept : forall e k data packed,
+  e <> Ejoblib ->
+  (data <> KFloat \/ packed = true \/ (k <> KInt /\ k <> KUInt)) ->
+  written_kind gen_dtype_rule e (Some k) data packed = k.
+Proof.
+  intros e k data packed He H. rewrite bridge_dtype_rule.
+  destruct e; try congruence; destruct k, data, packed; cbn; try reflexivity;
+    destruct H as [H|[H|[H1 H2]]]; congruence.
+Qed.
+
+(* the behaviour before the repair (no rule): the record of defect D30 *)
+Lemma C14_float_not_written_as_integer_refuted_old :
+  written_kind (mk_dtype_rule [] [] true) Eh5netcdf (Some KInt) KFloat false = KInt.
+Proof. reflexivity. Qed.
+
 Theorem C14_engine_forwarded : gen_engine_forwarded_everywhere = true.
 Proof. exact bridge_engine_forwarded. Qed.
 
+Print Assumptions C14_float_not_written_as_integer.
+Print Assumptions C14_other_dtypes_kept.
 Print Assumptions C14_names_agree.
 Print Assumptions C14_ext_idempotent.
 Print Assumptions C14_tmp_name_stable.
